@@ -2,7 +2,7 @@
 # usage: run_all.sh quick|thorough [ids...]   runs the registered checks one after the other, prints one summary line each
 T=${1:-quick}; shift
 IDS=${@:-C01 C02 C03 C04 C05 C06 C08 C09 C10 C12 C13 C14 C15 C16 C17 C18 C19}
-mkdir -p /verif/logs
+mkdir -p logs
 for C in $IDS; do
   S=$(date +%s); ./check $C $T > logs/$C.$T.out 2> logs/$C.$T.err; RC=$?
   echo "$C $T exit=$RC wall=$(( $(date +%s) - S ))s viol=$(grep -c '^VIOLATION' logs/$C.$T.out) known=$(grep -c '^KNOWN-FINDING' logs/$C.$T.out) :: $(tail -1 logs/$C.$T.err)"
